@@ -36,9 +36,20 @@ def fault_family(ctx, label, mode, nshards, nprog, ops, extra=None, keys=8):
     return rejs
 
 
+def regress(ctx, prop=None):
+    """Replays the recorded failing programs of the (repaired) defects of this property."""
+    f = os.path.join(VERIF, "regress", (prop or ctx.prop) + ".ndjson")
+    if not os.path.exists(f):
+        return []
+    out = ctx.path("rec-regress-%s.ndjson" % (prop or ctx.prop))
+    st = ctx.vrun(["regress", "-in", f, "-out", out])
+    add_stats(ctx, [st], "regress")
+    return ctx.validate([out])
+
+
 def c03(ctx):
     q = ctx.quick()
-    rejs = fault_family(ctx, "crash", "crash", CORES, 12 if q else 120, 25, ["-twice"] if not q else [])
+    rejs = regress(ctx) + fault_family(ctx, "crash", "crash", CORES, 12 if q else 120, 25, ["-twice"] if not q else [])
     ctx.report_rejections(rejs, describe_generic)
     h = ctx.cov["harness"]["crash"]
     ctx.cov["evaluations"] = h.get("images", 0)
@@ -50,4 +61,50 @@ def c03(ctx):
                       "every recording validated by TLC against spec/TraceAbs.tla (Reopened/CrashOK). distinct_nontrivial = distinct (image content, run position) pairs reopened")
 
 
-CHECKS = {"C03": c03}
+FAULT_ASSUME = ["crashfs (harness/crashfs) implements pogreb's fs.FileSystem faithfully (cross-checked against fs.OS/fs.Mem by C17's differential runs)"]
+POWER_MODEL = "power-loss model of the property statement: directory operations durable and ordered; file data volatile until Sync on that file; each file keeps its synced content plus an in-order prefix of later writes/truncations, last write cut at a 512-aligned offset"
+
+
+def c04(ctx):
+    q = ctx.quick()
+    rejs = regress(ctx) + fault_family(ctx, "crash-epochs", "crash", CORES, 10 if q else 100, 25, ["-epochs", "-twice", "-depth", "1"])
+    ctx.report_rejections(rejs, describe_generic)
+    h = ctx.cov["harness"]["crash-epochs"]
+    ctx.cov["evaluations"] = h.get("images", 0)
+    ctx.cov["distinct_nontrivial"] = h.get("distinct_images", 0)
+    ctx.assumptions += ["process-crash model of the property statement"] + FAULT_ASSUME
+    return ctx.finish("model_checking", "random programs with crashat directives: the run continues INSIDE a crash image (possibly torn) for up to ~5 epochs per program; "
+                      "crash images before every mutating call of every session including the recovering Opens themselves (nesting depth 1), every image recovered twice; "
+                      "validated by TLC against Layer A (Reopened/CrashOK/Continue, idempotence via img.seen)")
+
+
+def c06(ctx):
+    q = ctx.quick()
+    n = 4 if q else 40
+    rejs = regress(ctx) + fault_family(ctx, "power", "power", CORES // 2, n, 18, ["-noreopen", "-epochs", "-plimit", "32" if q else "96"])
+    rejs += fault_family(ctx, "power-syncw", "power", CORES // 2, n, 18, ["-noreopen", "-epochs", "-syncw", "-plimit", "32" if q else "96"])
+    ctx.report_rejections(rejs, describe_generic)
+    ha, hb = ctx.cov["harness"]["power"], ctx.cov["harness"]["power-syncw"]
+    ctx.cov["evaluations"] = ha.get("images", 0) + hb.get("images", 0)
+    ctx.cov["distinct_nontrivial"] = ha.get("distinct_images", 0) + hb.get("distinct_images", 0)
+    ctx.assumptions += [POWER_MODEL] + FAULT_ASSUME
+    return ctx.finish("model_checking", "random programs (puts/deletes/sync/compact, rollover; both sync modes; runs continue inside power-loss images = 'an earlier recovery') on crashfs; "
+                      "at every mutating call the admissible power-loss images (exhaustive product of per-file surviving prefixes when small, else extremes + single-file sweeps + seeded sample) are reopened by the real code; "
+                      "validated by TLC against Layer A (LossOK with the per-key durable floor advanced at ret(Sync) / ret(write) in sync mode)")
+
+
+def c09(ctx):
+    q = ctx.quick()
+    n = 6 if q else 50
+    rejs = regress(ctx) + fault_family(ctx, "closed-power", "power", CORES // 2, n, 16, ["-onlyclosed", "-plimit", "64" if q else "256"])
+    rejs += fault_family(ctx, "closed-power-syncw", "power", CORES // 2, n, 16, ["-onlyclosed", "-syncw", "-plimit", "64" if q else "256"])
+    ctx.report_rejections(rejs, describe_generic)
+    ha, hb = ctx.cov["harness"]["closed-power"], ctx.cov["harness"]["closed-power-syncw"]
+    ctx.cov["evaluations"] = ha.get("images", 0) + hb.get("images", 0)
+    ctx.cov["distinct_nontrivial"] = ha.get("distinct_images", 0) + hb.get("distinct_images", 0)
+    ctx.assumptions += [POWER_MODEL] + FAULT_ASSUME
+    return ctx.finish("model_checking", "random programs with clean restarts; power-loss images taken from the return of every Close until the end of the following Open (every mutating call of that Open), all files relevant (no lock file => index and metas are trusted); "
+                      "validated by TLC against Layer A (LossOK with the floor at ret(Close) = everything, i.e. exactly the closed contents)")
+
+
+CHECKS = {"C03": c03, "C04": c04, "C06": c06, "C09": c09}
